@@ -13,6 +13,15 @@ import AlgoVerif.Model.C13
 
 (`DFA.Symbols`, `DFA.States`, `NFA.Symbols`, `NFA.States`, `DFA.Next` are `DFA.symbols`, … of `Model/C13.lean`:
 the exported methods only collect the set into a slice.)
+
+* `X.Final.Add(s)`: the exported field `Final` is a set the caller may add to in place.  While it is the sorted set
+  that `NewNFA`/`NewDFA`/`NewStates` and every operation of the package produce, this is `sorted.add` = `sins`.
+
+Values of the Model do not alias: an automaton is a value, an operation returns a new value, and nothing an
+operation returned (state and symbol slices, `Transition` values, the final map of `CombineDFA`) or was handed
+(final and next-state slices, operand lists, words) is connected to an automaton afterwards.  The harness writes to
+all of those after every call (Exec: `scribStates`, `scribSymbols`, `clear`) and uses one object several times in
+one call; the Model needs no operation for either.
 -/
 namespace AlgoVerif.C13
 open AlgoVerif
@@ -22,6 +31,12 @@ def NFA.nextPub (n : NFA) (s : State) (a : Symbol) : Option (List State) :=
   match n.next s a with
   | some nx => some nx
   | none => none
+
+/-- `n.Final.Add(s)` (Final a sorted set) -/
+def NFA.addFinal (n : NFA) (s : State) : NFA := { n with final := sins s n.final }
+
+/-- `d.Final.Add(s)` (Final a sorted set) -/
+def DFA.addFinal (d : DFA) (s : State) : DFA := { d with final := sins s d.final }
 
 /-- the inner loop `for a, next := range strans.All() { tr := …; if !yield(tr) { return } }` for the source state `s`;
 the `Bool` of the result says whether the iterator goes on (`false` = the `return` was taken) -/
